@@ -102,7 +102,7 @@ var conformanceBounds = map[string]string{
 	"TestVerifAxiomAtoiItoa":        "strconv.Atoi/Itoa inverse on -1000..100000 and 7 non-canonical spellings",
 	"TestVerifAxiomJSONStructModel": "encoding/json tag-directed model on CommonValidations (6 values): members emitted, decode(encode), null / unknown / ill-typed / duplicate members, string literals, sorted map keys",
 	"TestVerifAxiomConcatJSON":      "swag.ConcatJSON member multiset on 6 blob combinations (duplicates kept, nil blobs skipped)",
-	"TestVerifAxiomGetForToken":     "jsonpointer.GetForToken on 4 props structs: every JSON name, unknown names, typed nil for unset pointers; on a nil and a non-nil *Schema (5 tokens): dispatch to the kind's own JSONLookup",
+	"TestVerifAxiomGetForToken":     "jsonpointer.GetForToken on 4 props structs: every JSON name, unknown names, typed nil for unset pointers; on a nil and a non-nil *Schema (5 tokens): dispatch to the kind's own JSONLookup; on a []Schema (6 tokens): index or error",
 	"TestVerifAxiomGobRules":        "encoding/gob field rules g1-g5 on probe values (zero pointers, empty slices and maps, nested containers, interface payloads)",
 }
 
